@@ -60,6 +60,12 @@ class Bindings:
         while p and p in self.rows and seen < 10000:
             pr = self.rows[p]
             if pr["op"] in SCOPE_OPS:
+                if pr["op"] == "method_decl" and pr["name"] == "%unit_init":
+                    return ("unit", 0, r["unit"], 0)          # module-level statements live in %unit_init
+                if pr["op"] == "method_decl" and pr["name"] == "%class_sinit":
+                    p = pr["parent"]                           # class-body statements live in %class_sinit
+                    seen += 1
+                    continue
                 return ("class" if pr["op"] == "class_decl" else "func", pr["line"], pr["name"], p)
             p = pr["parent"]
             seen += 1
